@@ -8,6 +8,7 @@
 //!   O0 / O1   open the writer without / with diff tracking
 //!   U..  update_rrset / D.. remove_rrset on three owner names (one of them new, one holding two records; one update
 //!        changes only the TTL of an RRset, one changes records and TTL)
+//!   Uab  a record at a.b (two labels below the apex: b becomes an empty non-terminal created by the writer)
 //!   Uy0  update_rrset with an RRset that holds no record (removes the type in the version being written)
 //!   RA  remove_all at the apex followed by writing the SOA back (the start of an AXFR-style replacement); the zone also
 //!       holds a delegation and a CNAME, which live in the nodes' "special" slot
@@ -85,8 +86,6 @@ fn initial() -> Content {
     let mut c = Content::new();
     c.insert("x", (300, vec![1, 2]));
     c.insert("y", (300, vec![7]));
-    // a record below an empty non-terminal (b.example.com has no records of its own)
-    c.insert("a.b", (300, vec![9]));
     c.insert(SPECIALS, (0, vec![]));
     c
 }
@@ -185,8 +184,8 @@ fn check_reader(what: &str, reader: &dyn ReadableZone, want: &Content) -> Result
 }
 
 #[derive(Clone, Copy, Debug, PartialEq, Eq)]
-enum Op { R, W, P, A, O0, O1, Ux2, Ux13, Ux12t, Dx, Ug3, Dg, Uy8, Dy, Uy0, RA, C, X }
-const OPS: [Op; 18] = [Op::R, Op::W, Op::P, Op::A, Op::O0, Op::O1, Op::Ux2, Op::Ux13, Op::Ux12t, Op::Dx, Op::Ug3, Op::Dg, Op::Uy8, Op::Dy, Op::Uy0, Op::RA, Op::C, Op::X];
+enum Op { R, W, P, A, O0, O1, Ux2, Ux13, Ux12t, Dx, Ug3, Dg, Uy8, Dy, Uy0, Uab, RA, C, X }
+const OPS: [Op; 19] = [Op::R, Op::W, Op::P, Op::A, Op::O0, Op::O1, Op::Ux2, Op::Ux13, Op::Ux12t, Op::Dx, Op::Ug3, Op::Dg, Op::Uy8, Op::Dy, Op::Uy0, Op::Uab, Op::RA, Op::C, Op::X];
 
 struct World {
     zone: Zone,
@@ -211,7 +210,7 @@ impl World {
             Op::P => self.writer.is_some() && self.pending.is_none(),
             Op::A => self.writer.is_none() && self.pending.is_some(),
             Op::O0 | Op::O1 => self.writer.is_some() && self.node.is_none(),
-            Op::Ux2 | Op::Ux13 | Op::Ux12t | Op::Dx | Op::Ug3 | Op::Dg | Op::Uy8 | Op::Dy | Op::Uy0 | Op::RA => self.node.is_some(),
+            Op::Ux2 | Op::Ux13 | Op::Ux12t | Op::Dx | Op::Ug3 | Op::Dg | Op::Uy8 | Op::Dy | Op::Uy0 | Op::Uab | Op::RA => self.node.is_some(),
             Op::C => self.writer.is_some(),
             Op::X => self.writer.is_some(),
         }
@@ -275,6 +274,15 @@ impl World {
             Op::Dg => self.edit("g", None)?,
             Op::Uy8 => self.edit("y", Some((600, &[8])))?,
             Op::Dy => self.edit("y", None)?,
+            Op::Uab => {
+                // a record two labels below the apex: the node in between (b.example.com) is created on the way and
+                // has no records of its own -- an empty non-terminal made by a writer, as a zone transfer makes them
+                let node = self.node.as_ref().unwrap();
+                let b = now(node.update_child(Label::from_slice(b"b").unwrap()))?.map_err(|e| e.to_string())?;
+                let a = now(b.update_child(Label::from_slice(b"a").unwrap()))?.map_err(|e| e.to_string())?;
+                now(a.update_rrset(a_rrset(300, &[9])))?.map_err(|e| e.to_string())?;
+                self.staged.as_mut().unwrap().insert("a.b", (300, vec![9]));
+            }
             Op::Uy0 => {
                 // update_rrset with an RRset that holds no record: the type is gone from the version being written
                 // (and from no other); what the diff says about such a write is not judged
@@ -384,7 +392,7 @@ fn main() {
                 // interesting sequences contain a writer; skip sequences of readers only beyond length 2
                 if s.iter().all(|o| *o == Op::R) && s.len() > 1 { continue; }
                 // at most three edits per sequence keeps the space small without losing the two-edits-per-RRset cases
-                if s.iter().filter(|o| matches!(o, Op::Ux2 | Op::Ux13 | Op::Ux12t | Op::Dx | Op::Ug3 | Op::Dg | Op::Uy8 | Op::Dy | Op::Uy0 | Op::RA)).count() > 3 { continue; }
+                if s.iter().filter(|o| matches!(o, Op::Ux2 | Op::Ux13 | Op::Ux12t | Op::Dx | Op::Ug3 | Op::Dg | Op::Uy8 | Op::Dy | Op::Uy0 | Op::Uab | Op::RA)).count() > 3 { continue; }
                 count += 1;
                 let r = std::panic::catch_unwind(|| run(&s));
                 match r {
